@@ -1545,9 +1545,24 @@ pub fn check_text(text: &str, tok_offs: &[usize], label: &str, detectors: &[Dete
         res.calls += 1;
         let got = match dets::run_guarded(d, text, 0) {
             Ok(g) => g,
-            Err(_) => {
+            Err(e) => {
                 res.must_counts.push((0, 0, 0));
-                continue; // C04's business
+                // a panic as such is C04's business; but a construct that MUST be reported is not reported by a
+                // call that does not return
+                if mode == Mode::Semantic {
+                    if let Some(x) = verdicts.iter().find(|x| x.must) {
+                        res.violations.push(Violation {
+                            site: format!("{}:missed:panic", d.name),
+                            input: text.to_string(),
+                            expected: format!("the construct at line {} is reported ({})", crate::layout::line_of(text, x.anchors[0]), x.note),
+                            observed: format!("the detector panicked: {}", e.chars().take(160).collect::<String>()),
+                            size: text.len(),
+                            unit_test: dets::unit_test_for(d, text, "must return and report the construct"),
+                            extra: serde_json::json!({"label": label}),
+                        });
+                    }
+                }
+                continue;
             }
         };
         res.reported += got.len() as u64;
